@@ -111,8 +111,11 @@ def extra_checks(work, tier, rng):
     races = {}
     samples = []
     for sc in SCENARIOS:
-        for r in reader_counts:
-            rc, out, err = V.sh([exe, sc, str(r), str(ops), str(rng.randint(0, 10**6))], timeout=600, env=env)
+        # the optional variable is the one object with several consumers: also run it with 4 producers + 4 consumers
+        counts = reader_counts + ([8] if sc.startswith("shared_optional") and 8 not in reader_counts else [])
+        for r in counts:
+            rc, out, err = V.sh([exe, sc, str(r), str(ops * (3 if sc.startswith("shared_optional") else 1)), str(rng.randint(0, 10**6))],
+                                timeout=600, env=env)
             runs += 1
             case = "tsan %s readers=%d ops=%d" % (sc, r, ops)
             if rc == 66 or "ThreadSanitizer: data race" in err:
